@@ -1,5 +1,6 @@
 import Lean.Data.Json
 import GenlmModel.Model.Semi
+import GenlmModel.Model.Wfsa
 /-! JSON codec of the line protocol (driver side). -/
 namespace Genlm
 open Lean (Json)
@@ -136,6 +137,52 @@ def cfgOfJson (j : Json) : E (CFG Sx K) := do
 def cfgToJson (G : CFG Sx K) : Json :=
   Json.mkObj [("S", sxToJson G.S), ("V", .arr (G.V.map sxToJson).toArray),
               ("rules", .arr (G.rules.map ruleToJson).toArray)]
+end
+
+section
+variable {K : Type} [Wt K]
+
+def labelOfSx (x : Sx) : Option Sx := if x = Sx.eps then none else some x
+def labelToJson : Option Sx → Json
+  | none => .str ""
+  | some a => sxToJson a
+
+def pairsOfJson (j : Json) : E (List (Sx × K)) := do
+  (← getArr j).mapM fun e => do
+    match ← getArr e with
+    | [a, w] => pure ((← sxOfJson a), (← Wt.ofJson w))
+    | _ => throw "bad pair"
+
+def pairsToJson (l : List (Sx × K)) : Json :=
+  .arr (l.map fun e => Json.arr #[sxToJson e.1, Wt.toJson e.2]).toArray
+
+/-- wfsa = {"start":[[q,w]…],"stop":[[q,w]…],"arcs":[[i,a,j,w]…]} ; label "" is ε -/
+def wfsaOfJson (j : Json) : E (WFSA Sx Sx K) := do
+  let start ← pairsOfJson (← getField j "start")
+  let stop ← pairsOfJson (← getField j "stop")
+  let arcs ← (← getArr (← getField j "arcs")).mapM fun e => do
+    match ← getArr e with
+    | [i, a, k, w] => pure (⟨← sxOfJson i, labelOfSx (← sxOfJson a), ← sxOfJson k, ← Wt.ofJson w⟩ : Arc Sx Sx K)
+    | _ => throw "bad arc"
+  pure ⟨start, stop, arcs⟩
+
+def wfsaToJson (A : WFSA Sx Sx K) : Json :=
+  Json.mkObj [("start", pairsToJson A.start), ("stop", pairsToJson A.stop),
+    ("arcs", .arr (A.arcs.map fun e => Json.arr #[sxToJson e.src, labelToJson e.lbl, sxToJson e.dst, Wt.toJson e.w]).toArray)]
+
+/-- fst = same with arcs [[i,a,b,j,w]…] -/
+def fstOfJson (j : Json) : E (FST Sx Sx K) := do
+  let start ← pairsOfJson (← getField j "start")
+  let stop ← pairsOfJson (← getField j "stop")
+  let arcs ← (← getArr (← getField j "arcs")).mapM fun e => do
+    match ← getArr e with
+    | [i, a, b, k, w] => pure (⟨← sxOfJson i, labelOfSx (← sxOfJson a), labelOfSx (← sxOfJson b), ← sxOfJson k, ← Wt.ofJson w⟩ : TArc Sx Sx K)
+    | _ => throw "bad fst arc"
+  pure ⟨start, stop, arcs⟩
+
+def fstToJson (T : FST Sx Sx K) : Json :=
+  Json.mkObj [("start", pairsToJson T.start), ("stop", pairsToJson T.stop),
+    ("arcs", .arr (T.arcs.map fun e => Json.arr #[sxToJson e.src, labelToJson e.inp, labelToJson e.out, sxToJson e.dst, Wt.toJson e.w]).toArray)]
 end
 
 end Genlm
